@@ -52,6 +52,8 @@ def cases(draw, max_n):
         # the tree under examination may be one that a transformation produced
         "pre": draw(st.sampled_from([None, None, None, "anneal", "reconf", "temper"])),
         "pre_seed": draw(st.integers(0, 99)),
+        # re-schedule between two executions: new surface order taken from this order
+        "resurface": draw(st.sampled_from([None, None, "dfs", "len", "table"])),
         "touch_before": draw(st.booleans()),
         "touch_mid": draw(st.booleans()),
     }
@@ -251,6 +253,37 @@ def run_case(spec, sub=None):
                         )
                         break
 
+    # Oracle C: the schedule is changed between two executions through the SAME
+    # options (same implementation object, order='surface_order'): what is
+    # produced the second time must follow what the tree reports then
+    if not viol and spec.get("resurface") and n >= 3:
+        arrays = ref.make_arrays(inputs, sizes, spec["aseed"], "f")
+        log = []
+        impl = rec_impl(log)
+        kwc = dict(order="surface_order", prefer_einsum=spec["prefer_einsum"], implementation=impl)
+        ok, got = guarded(tree.contract, arrays, **kwc)
+        if ok:
+            other = make_order({"order": spec["resurface"], "table": spec["table"]})
+            ok, r = guarded(lambda: tree.set_surface_order_from_path(tree.get_ssa_path(order=other)))
+        if ok:
+            del log[:]
+            ok, got = guarded(tree.contract, arrays, **kwc)
+        if not ok:
+            viol.append(f"contract / set_surface_order_from_path raised {got if isinstance(got, str) else r}")
+        else:
+            steps2 = [(p, l, r) for p, l, r in tree.traverse("surface_order")]
+            per_slice = len(want_pre) + (n - 1)
+            rep2 = [tree.get_size(p) for p, _, _ in steps2]
+            for s_ in range(cr.nslices):
+                chunk = log[s_ * per_slice : (s_ + 1) * per_slice]
+                got_sizes = [math.prod(shp) for k_, shp in chunk if k_ != "einsum1"]
+                if got_sizes != rep2:
+                    viol.append(
+                        f"after set_surface_order_from_path: slice {s_} produced intermediate sizes {got_sizes}, "
+                        f"the tree reports {rep2} for traverse('surface_order')"
+                    )
+                    break
+
     # a derived (non-inplace) tree and the tree it was derived from must both
     # keep reporting their own figures
     if not viol:
@@ -277,6 +310,8 @@ def run_case(spec, sub=None):
     tags = sorted(cls) + [f"order={spec['order']}", f"removed={len(removed)}"] + (["restored_some"] if back else [])
     if spec.get("pre"):
         tags.append(f"tree_from={spec['pre']}")
+    if spec.get("resurface") and n >= 3:
+        tags.append("rescheduled_between_executions")
     if spec.get("touch_before") or spec.get("touch_mid"):
         tags.append("queried_before_final_state")
     if any(p is not None for _, p in removed):
